@@ -362,6 +362,15 @@ def gen_cases(rng, tier):
         cases.append(["mt%d" % i, "c20", "demux", m.hex(), "stun"])
         cases.append(["mu%d" % i, "c20", "demux", (m + b"trailing").hex(), "stun"])
         cases.append(["mv%d" % i, "c20", "demux", m[:-3].hex(), "stun-incomplete"])
+    # a message that is nothing but its 20-byte header (a plain Binding request or indication as used for keep-alives, RFC 8489 sec. 5 /
+    # RFC 5626) is a complete STUN message; one byte less is not a header yet
+    k = 0
+    for cls in CLASSBITS:
+        for tsx in TSX[:3]:
+            m = rfc_encode(cls, tsx, [])
+            cases.append(["mh%d" % k, "c20", "demux", m.hex(), "stun"]); k += 1
+            cases.append(["mh%d" % k, "c20", "demux", (m + b"xy").hex(), "stun"]); k += 1
+            cases.append(["mh%d" % k, "c20", "demux", m[:19].hex(), "stun-short"]); k += 1
     # client: response / loss patterns around every retransmission edge
     edges = [0, 500, 1500, 3500, 7500, 15500, 31500, 63500]
     k = 0
